@@ -208,8 +208,15 @@ REG.contracts[f"{G}:BaseGHE.combine_sts_lts"].returns = Interp()
 contract(f"{GF}:GFunction.g_function_interpolation", dict(self=ObjOf(f"{GF}:GFunction", log_time=ListOf(Real, minlen=1)), b_over_h=Real),
          name=f"{GF}:GFunction.g_function_interpolation#caller",
          ensures=[("one-value-per-long-time-point", lambda E: E.result[0].len == E.self.log_time.len),
-                  ("stored-radius-positive", lambda E: E.result[1] > 0)],
+                  ("stored-radius-positive", lambda E: E.result[1] > 0),
+                  # A-DET: for the (fixed) long-time family of this GHE the interpolated curve and the stored radius are functions of B/H
+                  ("interpolated-family", lambda E: And(E.result[1] == RB_LIB(E.b_over_h),
+                                                        forall(1, lambda k: Implies(And(0 <= k, k < E.self.log_time.len), E.result[0][k] == G_LTS(E.b_over_h, k)))))],
          returns=TupleOf(ListOf(Real), Real, Real, Real), notes="caller view; interpolation at a stored height is verified separately").applies = lambda env: "log_time" in env["self"].fields
+
+
+G_LTS = z3.Function("G_LTS", z3.RealSort(), z3.IntSort(), z3.RealSort())   # interpolated long-time curve of the GHE's family at B/H, per long-time point
+RB_LIB = z3.Function("RB_LIB", z3.RealSort(), z3.RealSort())               # borehole radius the family was computed for
 
 
 def GHEgrab():
@@ -229,6 +236,8 @@ def _grab_clauses(g, gb, E):
     return And(strictly_increasing(g.x), g.x.len == g.y.len, gb.x.len == g.x.len, gb.y.len == g.x.len, 0 <= m, m <= st_.len,
                forall(1, lambda k: Implies(And(0 <= k, k < g.x.len), gb.x[k] == g.x[k])),
                forall(1, lambda k: Implies(And(0 <= k, k < lt.len), And(g.x[m + k] == lt[k], gb.y[m + k] == g.y[m + k]))),
+               # the long-time points carry the interpolated long-time curve corrected from the library radius to this borehole's radius
+               forall(1, lambda k: Implies(And(0 <= k, k < lt.len), g.y[m + k] == G_LTS(E.b_over_h, k) - LOG(E.self.bhe.b.r_b / RB_LIB(E.b_over_h)))),
                forall(1, lambda k: Implies(And(0 <= k, k < m), And(g.x[k] == st_[k], g.x[k] < lt[0], g.y[k] == E.self.radial_numerical.g[k], gb.y[k] == E.self.radial_numerical.g_bhw[k]))))
 
 
@@ -271,3 +280,42 @@ def _design_env(E):
 
 def _gv(o):
     return o
+
+
+# ---- g_function_interpolation at a stored height (run-time form; the body - dict of float keys, scipy interpolants - is out of reach) ---------
+def _interp_check(a):
+    import warnings
+
+    from ghedesigner.gfunction import GFunction
+
+    heights, curves, radii = a["heights"], a["curves"], a["radii"]
+    mk = lambda: GFunction(b=a["B"], d=2.0, r_b_values={h: r for h, r in zip(heights, radii)}, g_lts={h: list(c) for h, c in zip(heights, curves)},  # noqa: E731
+                           log_time=list(a["log_time"]), bore_locations=[(0.0, 0.0)])
+    shared = mk()
+    for fresh_each in (True, False):
+        for h, c, r in zip(heights, curves, radii):
+            gf = mk() if fresh_each else shared
+            with warnings.catch_warnings():
+                warnings.simplefilter("ignore")
+                g, rb, d, h_eq = gf.g_function_interpolation(a["B"] / h)
+            err = max(abs(float(x) - y) for x, y in zip(g, c))
+            if len(g) != len(c) or err > 1e-8 * max(1.0, max(abs(y) for y in c)) or abs(float(rb) - r) > 1e-9:
+                return False, {"why": "interpolating the long-time family at a stored height does not return the stored curve / radius", "height": h, "heights_in_storage_order": heights,
+                               "max_error": err, "rb": float(rb), "rb_stored": r, "fresh_object": fresh_each, "signature": "stored-height-not-reproduced"}
+    return True, {}
+
+
+def _interp_gen(rng):
+    n = rng.choice([1, 2, 2, 3, 3, 4, 5, 5])
+    heights = rng.sample([24.0, 48.0, 60.0, 96.0, 120.0, 144.0, 192.0, 384.0], n)
+    if rng.random() < 0.3:
+        heights.sort()
+    nt = rng.choice([5, 27])
+    log_time = sorted(round(rng.uniform(-8.5, 3.0), 3) for _ in range(nt))
+    curves = [[round(2.0 + 0.6 * k + rng.uniform(0, 3.0) + 0.01 * h, 4) for k in range(nt)] for h in heights]
+    same_rb = rng.random() < 0.6
+    return {"B": rng.choice([5.0, 6.096]), "heights": heights, "curves": curves, "radii": [0.075 if same_rb else round(rng.uniform(0.05, 0.1), 4) for _ in heights], "log_time": log_time}
+
+
+native(f"{GF}:GFunction.g_function_interpolation", _interp_check, _interp_gen, None,
+       bound="real GFunction objects with 1..5 stored heights in arbitrary storage order, random curves and radii: B/H of every stored height returns the stored curve and radius (fresh object and shared object with cached interpolation table)")
